@@ -68,19 +68,23 @@ UsedChains == IF Narrow THEN (IF MaxLen > 3 THEN {"C1", "C2"} ELSE {"C1"})
 
 (* plans: hook name of the k-th registration, and the order in which the schemas are used *)
 Plan(names, order) == [names |-> names, order |-> order]
-PlansPairs == { Plan(<<"map_query", "filter_query">>, "AB"),
+PlansPairs == { Plan(<<"map_query", "map_query">>, "AB"),
                 Plan(<<"flatmap_body", "map_case">>, "BA"),
                 Plan(<<"before_generate_body", "before_init_operation">>, "A") }
 PlansTriples == { Plan(<<"map_query", "map_query", "filter_query">>, "BA"),
                   Plan(<<"before_generate_body", "flatmap_case", "map_case">>, "A"),
                   Plan(<<"filter_case", "before_generate_case", "flatmap_query">>, "AB") }
 PlansRich == { Plan(<<"map_headers", "filter_cookies">>, "AB"),
-               Plan(<<"before_generate_path_parameters", "flatmap_headers">>, "BA"),
-               Plan(<<"map_body", "flatmap_case">>, "A") }
+               Plan(<<"before_generate_path_parameters", "flatmap_case">>, "BA") }
 PlansGen == { Plan(<<"map_query", "filter_query">>, "AB"),
               Plan(<<"before_init_operation", "before_generate_query">>, "BA") }
 
-Plans == IF MaxGen > 0 THEN PlansGen ELSE IF Rich THEN PlansRich ELSE IF MaxReg <= 2 THEN PlansPairs ELSE PlansTriples
+(* several hooks of the SAME name on the dispatchers, with different filters, in every order: data hooks and dispatched hooks *)
+PlansSame == { Plan(<<"map_query", "map_query", "map_query">>, "AB"),
+               Plan(<<"before_init_operation", "before_init_operation", "before_init_operation">>, "BA"),
+               Plan(<<"filter_body", "filter_body", "filter_body">>, "A"),
+               Plan(<<"before_generate_headers", "before_generate_headers", "before_generate_headers">>, "A") }
+Plans == IF MaxGen > 0 THEN PlansGen ELSE IF Narrow THEN PlansSame ELSE IF Rich THEN PlansRich ELSE IF MaxReg <= 2 THEN PlansPairs ELSE PlansTriples
 
 ---------------------------------------------------------------------------
 (* the oracle, as a function of the history alone *)
